@@ -157,6 +157,12 @@ pub struct Decoded {
 /// in one context only; in a damaged file the same page may be reached in two, and its covered prefix
 /// differs between them, so the contexts must be distinct pointers of the (single-valued) model image.
 fn mptr(pn: Pn, fk: Option<usize>, fv: Option<usize>, vk: ValKind) -> String {
+    format!("{}{}", pn.num(), ctx_tag(fk, fv, vk))
+}
+
+/// 13 bytes (26 hex digits) naming a decode context; also prefixed to the payload handed to the model, so that
+/// the links found in a payload are a function of the (tagged) payload alone
+fn ctx_tag(fk: Option<usize>, fv: Option<usize>, vk: ValKind) -> String {
     let w = |x: Option<usize>| x.map(|v| (v as u64 + 1) & 0xffff_ffff).unwrap_or(0);
     let (code, extra) = match vk {
         ValKind::Defs => (1, 0),
@@ -164,7 +170,7 @@ fn mptr(pn: Pn, fk: Option<usize>, fv: Option<usize>, vk: ValKind) -> String {
         ValKind::Savepoints => (3, 0),
         ValKind::Plain => (4, 0),
     };
-    format!("{}{:08x}{:08x}{:x}{:08x}", pn.num(), w(fk), w(fv), code, extra)
+    format!("{:08x}{:08x}{:02x}{:08x}", w(fk), w(fv), code, extra)
 }
 
 #[derive(Clone, Copy)]
@@ -697,8 +703,11 @@ pub fn export_forest(b: &[u8], page_size: usize) -> R<String> {
         seen.push(p.mptr.clone());
         let payload = &b[p.offset..p.offset + p.used];
         let links: Vec<String> = p.mlinks.iter().map(|(q, sum)| format!("{}={}", q, sumhex(*sum))).collect();
+        // model payload = context tag ++ covered prefix; H(model payload) := XXH3 of the covered prefix
+        let tag = &p.mptr[p.mptr.len() - 26..];
+        let body = if payload.is_empty() { String::new() } else { hexs(payload) };
         writeln!(
-            s, "P {} {} {} {}", p.mptr, hexs(payload), sumhex(redb::verif::xxh3_128(payload)),
+            s, "P {} {}{} {} {}", p.mptr, tag, body, sumhex(redb::verif::xxh3_128(payload)),
             if links.is_empty() { "-".to_string() } else { links.join(",") }
         ).unwrap();
     }
